@@ -135,6 +135,35 @@ def r3_one_to_one(ctx):
         ctx.ob("R15.3", "%s:receive-buffer-holds-max-datagram" % name, big, src[0].site, "recv buffer >= 65507 bytes" if big else "the receive buffer is smaller than the largest datagram: large datagrams are truncated by the kernel")
 
 
+def r6_reply_peer(ctx):
+    """the client remembers the sender of *every* datagram it forwards (replies go to the most recent local peer)"""
+    body = co(ctx, "R15.6", "client::udp_client::udp_to_stream")
+    if body is None:
+        return
+    cfg, o = ctx.cfg(body), ctx.origins(body)
+    from .common import stores_through
+    rf = calls_norm(body, "UdpSocket::recv_from")
+    sd = calls_norm(body, "Stream::send_data")
+    if not ctx.floor("R15.6", "recv_from / send_data in the client's udp_to_stream", min(len(rf), len(sd)), 1):
+        return
+    sts = []
+    for bi, line, base, v, place in stores_through(body, o):
+        if isinstance(base, tuple) and base[0] == "var" and len(base) > 2:
+            ty = body.lty(base[2])
+            if ty.get("adt") == "tokio::sync::MutexGuard" and "SocketAddr" in ty["args"][0]["s"]:
+                sts.append((bi, line, v))
+    if not sts:
+        ctx.ob("R15.6", "udp_to_stream:remembers-sender", False, "", "the sender of a forwarded datagram is never stored: replies cannot be delivered")
+        return
+    ok, p = cfg.must_pass(cfg.succ(rf[0].bb), [sd[0].bb], via_blocks=[s[0] for s in sts])
+    v = sts[0][2]
+    from_this = isinstance(v, tuple) and v[0] == "agg" and v[2] == "Some" and any(isinstance(s, tuple) and s[0] == "call" and s[2] == rf[0].bb for s in subterms(v))
+    ctx.ob("R15.6", "udp_to_stream:remembers-sender-of-every-datagram", ok and from_this, "src/client/udp_client.rs:%s" % sts[0][1],
+           "every forwarded datagram stores Some(sender) of that recv_from before it is sent on" if ok and from_this else
+           "the stored reply address is not refreshed unconditionally with the sender of each datagram (a 'peer unchanged' shortcut, or a value other than this recv_from's address): the reply to a request from a second "
+           "local socket is delivered to the first one", path=None if ok else render_path(body, p))
+
+
 def r4_r5(ctx):
     from . import C01
     C01.r2_chunking(ctx)
@@ -173,4 +202,5 @@ def r4_r5(ctx):
 def run(ctx):
     r1_prefix_agreement(ctx)
     r3_one_to_one(ctx)
+    r6_reply_peer(ctx)
     r4_r5(ctx)
